@@ -51,6 +51,9 @@ var sortSpecs = [][]gen.SortCol{
 	// a required sorting column that comes after the repeated column in the schema
 	{{Path: []string{"sum"}}},
 	{{Path: []string{"k2"}, NullsFirst: true}, {Path: []string{"sum"}, Desc: true}},
+	// an optional leaf inside an optional group
+	{{Path: []string{"g", "v"}}, {Path: []string{"k"}}},
+	{{Path: []string{"g", "v"}, Desc: true, NullsFirst: true}},
 }
 
 func genSortSpec(t *tape.Tape) []gen.SortCol { return sortSpecs[t.Draw(len(sortSpecs))] }
@@ -74,6 +77,17 @@ func makeKeyed(r *tape.Rng, key int64, src int32) gen.Keyed {
 		// different inputs differ in the second sorting column
 		s := fmt.Sprintf("s%02d", ((key%23)+23+int64(src)*5)%23)
 		k.K2 = &s
+	}
+	// nulls of g.v sit at one definition level per input: group present and leaf
+	// nil in even inputs, group nil in odd ones; the values follow the key, so
+	// inputs with disjoint keys are disjoint in g.v as well
+	if (key%7+7)%7 == 0 {
+		if src%2 == 0 {
+			k.G = &gen.KeyedG{}
+		}
+	} else {
+		v := key
+		k.G = &gen.KeyedG{V: &v}
 	}
 	k.Pay = gen.String(r, 1)
 	if len(k.Pay) > 40 {
